@@ -108,6 +108,17 @@ def check_mle(case, ctx):
     if ll_fit < ll_truth - tau:
         ctx.violation(f"ll_below_truth:{f}" + (":gamma_free" if gfree else "") + f":{sk}_start", f"{tag}: ll(fit)={ll_fit!r} < ll(truth)={ll_truth!r} (deficit {ll_truth - ll_fit:.4g})")
         return  # an unconverged fit says nothing about equivariance
+    # a second fit of the same data starts from the fitted parameters: it must not lose likelihood either
+    try:
+        d.fit(x)
+        ll_refit = loglik(d, x)
+        if not math.isfinite(ll_refit) or ll_refit < ll_fit - tau:
+            ctx.violation(f"ll_below_start:refit:{f}" + (":gamma_free" if gfree else ""), f"{tag}: a second fit of the same data (start = fitted parameters, ll={ll_fit!r}) ends at ll={ll_refit!r}, parameters {dict(d.parameters)}")
+            return
+        d = make(f, p)  # continue with the first fit's parameters
+    except Exception as e:  # noqa: BLE001
+        ctx.violation(f"refit_raises:{f}:{type(e).__name__}", f"{tag}: {str(e)[:200]}")
+        return
     # scale equivariance
     if f == "VonMises":
         return
